@@ -318,7 +318,9 @@ func (e *Engine) registerStd() {
 		}
 		return newSliceOf(r)
 	}
-	e.Register("strings.Split", func(fr *frame, a []value) value { return strs(strings.Split(str(a[0], "strings.Split"), str(a[1], "strings.Split"))) })
+	e.Register("strings.Split", func(fr *frame, a []value) value {
+		return strs(strings.Split(str(a[0], "strings.Split"), str(a[1], "strings.Split")))
+	})
 	e.Register("strings.Fields", func(fr *frame, a []value) value { return strs(strings.Fields(str(a[0], "strings.Fields"))) })
 	s2b := func(name string, f func(a, b string) bool) {
 		e.Register(name, func(fr *frame, a []value) value { return f(str(a[0], name), str(a[1], name)) })
@@ -348,7 +350,9 @@ func (e *Engine) registerStd() {
 		}
 		return strings.ContainsRune(str(a[0], "ContainsRune"), rune(int32(r)))
 	})
-	e.Register("strings.Index", func(fr *frame, a []value) value { return fr.mkInt(int64(strings.Index(str(a[0], "Index"), str(a[1], "Index")))) })
+	e.Register("strings.Index", func(fr *frame, a []value) value {
+		return fr.mkInt(int64(strings.Index(str(a[0], "Index"), str(a[1], "Index"))))
+	})
 	e.Register("strings.Repeat", func(fr *frame, a []value) value {
 		n := fr.sint(a[1], intT, "strings.Repeat")
 		if n < 0 {
